@@ -20,6 +20,9 @@ FIRST_USE = (
 )
 
 RACE_ENV = {"GORACE": "halt_on_error=1"}
+# the pool stress run (48 / 64 goroutines inside slow-path conversions) is part of every group's "conc*" job and of the
+# cheap -race jobs; the other build variants of the concurrent suite skip it
+NO_STRESS = {"GORACE": "halt_on_error=1", "VERIF_C18_STRESS": "0"}
 
 
 FIRST_USE_EXTRA = ["%s/%s" % (c, g) for c in EXTRA_CURVES
@@ -114,6 +117,15 @@ PROP = dict(
         "slice arguments come as prefixes of larger arrays: every drawn byte string, every shared vector of field elements or points, every "
         "encoded blob and decoder input has spare capacity whose tail holds a sentinel pattern, dst and msg of the hash-to-field/curve entries sit "
         "next to each other in one record (dst first), and argument snapshots cover len..cap of every flat slice (results are digested up to len only)",
+        "pool stress: in every group's concurrent job, before the sweeps, 48 and then 64 goroutines (GOMAXPROCS = g, so each has a P of its own) "
+        "are released by a barrier into slow-path conversions of the fields of the group (fr and fp together: the big.Int pool of field/pool is "
+        "process-wide): SetBytes of 32 KB strings repeated 60 times (the conversion then holds two scratch values almost all the time), SetString / "
+        "SetInterface of 65 536-digit hexadecimal numerals, SetBigInt of a huge negative value, UnmarshalJSON / SetString of 16 384- and 8 192-digit "
+        "decimal numerals; every result must equal the sequentially computed one and a panic in any goroutine is a failure reported with its stack",
+        "Element.SetInterface is called with every dynamic type its switch accepts (Element, *Element, uint8/16/32/64, uint, int8/16/32/64, int, "
+        "string, *big.Int, big.Int by value, []byte; nil, a nil pointer and unsupported types are errors) and values inside and outside [0,q), "
+        "negative and wider than the modulus; the big.Int arguments are shared objects of their own for the pointer and the by-value entries "
+        "(the by-value copy aliases the caller's limbs: argument snapshots cover the limb array up to cap and the sign)",
         "goroutine scheduling is the only input not controlled by the rapid seed; a race needing an interleaving the runtime does not "
         "produce under the varied g / GOMAXPROCS / yields / -race instrumentation can be missed; timing is never used as a signal",
         "shared inputs are a deterministic function of VERIF_SEED (SHA-256 counter stream); ECDSA signatures are produced once with the "
@@ -127,7 +139,9 @@ PROP = dict(
         "the portable Go kernels are instrumented (small fields + misc in full, bn254 reduced in quick; all four curves reduced in thorough)",
         "every entry point is also exercised deterministically (sweep): 3 interleaved sequential calls and 4 concurrent goroutines x 2 calls",
     ],
-    mandatory_all=["arg:spare_capacity_sentinel", "exp:boundary_exponents", "exp:negative_one_word", "exp:negative_one_word/field",
+    mandatory_all=["pool_stress:g>=48"] + ["setinterface:" + t for t in (
+        "Element", "*Element", "uint", "int", "string", "*big.Int", "big.Int", "[]byte", "nil/unsupported")] + [
+        "arg:spare_capacity_sentinel", "exp:boundary_exponents", "exp:negative_one_word", "exp:negative_one_word/field",
                    "exp:negative_one_word/tower", "exp:negative_one_word/gt", "exp:negative_one_word/point", "writer:fails_at_k", "writer:fails_once", "writer:short_write", "writer:slow_with_concurrent_use",
                    "reader:fails_at_k", "reader:fails_once", "reader:one_byte", "decode_pool"] + ["decode:" + c for c in (
         "valid", "x_eq_p", "x_gt_p", "last_eq_p", "all_ones", "all_zero", "inf_dirty", "off_curve", "not_in_subgroup",
@@ -138,23 +152,23 @@ PROP = dict(
         dict(name="coldstart-edwards", pkg="c02/uninit", run="^TestC02_ColdStart$", rapid=False),
         dict(name="coldstart-hashes", pkg="c14", run="^TestC14_ColdStart$", rapid=False, weight=4),
         # -race suite (asm build): shared-object concurrency under the race detector
-        dict(name="race", pkg="c18", run="^TestC18_Concurrent$", race=True, shards=_race_curve_shards, env=RACE_ENV,
+        dict(name="race", pkg="c18", run="^TestC18_Concurrent$", race=True, shards=_race_curve_shards, env=NO_STRESS,
              checks=(60, 1500), timeout=(1800, 5400), weight=9),
-        dict(name="race-light", pkg="c18", run="^TestC18_Concurrent$", race=True, shards=_race_light_shards, env=RACE_ENV,
+        dict(name="race-light", pkg="c18", run="^TestC18_Concurrent$", race=True, shards=_race_light_shards, env=NO_STRESS,
              checks=(22, 600), timeout=(1800, 5400), weight=10),
         dict(name="race-small", pkg="c18", run="^TestC18_Concurrent$", race=True, shards=SMALL + ["misc"], env=RACE_ENV,
              checks=(250, 4000), timeout=(1800, 5400), weight=6),
         # -race -tags purego: the assembly kernels are invisible to the race detector, the portable Go code is not
         dict(name="race-purego", pkg="c18", run="^TestC18_Concurrent$", race=True, tags="purego", shards=SMALL + ["misc"],
-             env=RACE_ENV, checks=(100, 1500), timeout=(1800, 5400), weight=8),
+             env=NO_STRESS, checks=(100, 1500), timeout=(1800, 5400), weight=8),
         dict(name="race-purego-curve", pkg="c18", run="^TestC18_Concurrent$", race=True, tags="purego", shards=_race_purego_curve_shards,
-             env=RACE_ENV, checks=(15, 300), timeout=(1800, 7200), weight=11),
+             env=NO_STRESS, checks=(15, 300), timeout=(1800, 7200), weight=11),
         dict(name="race-seq", pkg="c18", run="^TestC18_Sequential$", race=True, shards=GROUPS + EXTRA_CURVES + PLAIN_CURVES, env=RACE_ENV,
              checks=(15, 300), timeout=(1800, 5400), weight=7, tiers=("thorough",)),
         # the three remaining pairing curves: a change confined to one curve's generated copy must not be invisible
         dict(name="seq-extra", pkg="c18", run="^TestC18_Sequential$", shards=EXTRA_CURVES, checks=(220, 8000), timeout=(1800, 5400), weight=5),
         dict(name="conc-extra", pkg="c18", run="^TestC18_Concurrent$", shards=EXTRA_CURVES, checks=(80, 3000), timeout=(1800, 5400), weight=5),
-        dict(name="race-extra", pkg="c18", run="^TestC18_Concurrent$", race=True, shards=_race_extra_shards, env=RACE_ENV,
+        dict(name="race-extra", pkg="c18", run="^TestC18_Concurrent$", race=True, shards=_race_extra_shards, env=NO_STRESS,
              checks=(30, 600), timeout=(1800, 5400), weight=9, tiers=("thorough",)),
         # the curves without pairing (plain.tmpl): cheap registries, every suite in quick with modest counts
         dict(name="seq-plain", pkg="c18", run="^TestC18_Sequential$", shards=PLAIN_CURVES, checks=(600, 10000), timeout=(1800, 5400), weight=3),
@@ -162,7 +176,7 @@ PROP = dict(
         dict(name="race-plain", pkg="c18", run="^TestC18_Concurrent$", race=True, shards=PLAIN_CURVES, env=RACE_ENV,
              checks=(60, 2500), timeout=(1800, 5400), weight=6),
         dict(name="race-purego-plain", pkg="c18", run="^TestC18_Concurrent$", race=True, tags="purego", shards=PLAIN_CURVES,
-             env=RACE_ENV, checks=(25, 800), timeout=(1800, 5400), weight=8),
+             env=NO_STRESS, checks=(25, 800), timeout=(1800, 5400), weight=8),
         dict(name="conc", pkg="c18", run="^TestC18_Concurrent$", shards=GROUPS, checks=(300, 5000), timeout=(1800, 5400), weight=5),
         dict(name="seq", pkg="c18", run="^TestC18_Sequential$", shards=FULL_CURVES + SMALL + ["misc"], checks=(1200, 20000), timeout=(1800, 5400), weight=4),
         dict(name="seq-light", pkg="c18", run="^TestC18_Sequential$", shards=LIGHT_CURVES, checks=(550, 8000), timeout=(1800, 5400), weight=5),
